@@ -10,7 +10,7 @@ from vpkit import common, zoo
 
 ID = "C37"
 N = {"quick": 150, "thorough": 4000}
-BUDGET = {"quick": 240.0, "thorough": 1200.0}
+BUDGET = {"quick": 240.0, "thorough": 700.0}
 RULE = ("case = (contemporaneous simulated / inferred / hand-made input incl. polytomies and mutations "
         "above roots; num_intervals 1/2/10/100, num_iterations 1/3/10, match_segregating_sites); "
         "distinct by (topology hash, options); non-trivial = returned result with >=3 non-sample nodes")
